@@ -4,7 +4,7 @@ import ast
 from .. import prov
 from ..cfg import CFG
 from ..report import AnalysisError, norm
-from ..srcmodel import own_nodes
+from ..srcmodel import own_nodes, own_statements
 from ..terms import Resolver, alternatives, fields_in, params_in, show, walk
 
 PROP = "C07"
@@ -273,6 +273,34 @@ def r5_interning(rep, ctx):
                   "a Quantity is constructed without being stored in the intern table: repeating the request yields a different object", node=st, fn=fn)
         for ke in keyexprs:
             _key_complete(rep, fn, res, cfg, st, ke, c)
+    # every store into the intern table: the key must be made of the request's own components
+    # (as asked or as resolved); a constant component makes the entry answer requests that did not
+    # resolve to this object
+    n_stores = 0
+    for st in own_statements(fn.node):
+        if not isinstance(st, ast.Assign):
+            continue
+        for t in st.targets:
+            if isinstance(t, ast.Subscript) and is_cache(t.value):
+                n_stores += 1
+                kt = res.term(t.slice)
+                consts = []
+                for a in alternatives(kt):
+                    comps = a[1] if a[0] == "tuple" else ()
+                    for i, c_ in enumerate(comps):
+                        if c_[0] == "const":
+                            consts.append((i, c_[1]))
+                ok = True
+                why = ""
+                if consts:
+                    facts = cfg.facts_at(cfg.node_of(st))
+                    justified = any(isinstance(e, ast.Compare) and isinstance(e.ops[0], ast.Eq) and v and any(x[0] == "call" and x[1][0] == "attr" and x[1][2] == "GetDefaultCategory" for x in walk(res.term(e))) for e, v in facts)
+                    ok = justified
+                    why = "component(s) %s of the key are constants" % consts
+                rep.check(ok, "C07.R5", "ObtainQuantity:store-key:%s" % norm(ast.unparse(st))[:80], "the entry is stored under a key made of the request's own category, unit and caption",
+                          "`%s`: %s, so the entry also answers requests that name no category although their default category may differ from this object's: Scalar(v, u) and Scalar(v, u, default category of u) stop being equal after such a store"
+                          % (norm(ast.unparse(st))[:100], why), node=st, fn=fn)
+    rep.floor("C07.R5", "stores into the intern table", n_stores, 5)
     # returns: cache hit or a name assigned by such a statement in that arm
     for r in cfg.returns():
         st = cfg.ast[r]
